@@ -275,4 +275,84 @@ theorem negative_carries_nsec_records {z : Zone} {o : LName} {q : Query} (hwf : 
       cases h : zoneOf o q.name <;> simp_all
     simp [hzo] at hneg
 
+/-! ### RRSIGs in the additional section -/
+
+theorem addLoop_fromZone {z : Zone} {qt : Nat} :
+    ∀ (fuel : Nat) (names : List LName) (search : LName) (adds : List RRset),
+      (∀ x ∈ adds, rdatasFromZone z x) →
+      ∀ x ∈ addLoop z qt fuel names search adds, rdatasFromZone z x := by
+  intro fuel
+  induction fuel with
+  | zero => intro _ _ adds h x hx; simpa [addLoop] using h x hx
+  | succ f ih =>
+    intro names search adds h x hx
+    unfold addLoop at hx
+    split at hx
+    · exact h x hx
+    · split at hx
+      · exact h x hx
+      · rename_i a hil
+        dsimp only at hx
+        have h' : ∀ y ∈ (if adds.contains a = true then adds else adds ++ [a]), rdatasFromZone z y := by
+          intro y hy
+          split at hy
+          · exact h y hy
+          · rcases List.mem_append.1 hy with hy | hy
+            · exact h y hy
+            · rw [List.mem_singleton] at hy
+              exact hy ▸ innerLookup_rdatas hil
+        split at hx
+        · exact h' x hx
+        · exact ih _ _ _ h' x hx
+
+theorem foldl_addLoop_fromZone {z : Zone} {F : Nat} {names : Nat → List LName} {next : LName} :
+    ∀ (qts : List Nat) (adds : List RRset), (∀ x ∈ adds, rdatasFromZone z x) →
+      ∀ x ∈ qts.foldl (fun adds qt => addLoop z qt F (names qt) next adds) adds, rdatasFromZone z x := by
+  intro qts
+  induction qts with
+  | nil => intro adds h x hx; exact h x hx
+  | cons qt qts ih =>
+    intro adds h x hx
+    simp only [List.foldl_cons] at hx
+    exact ih _ (addLoop_fromZone _ _ _ _ h) x hx
+
+theorem additionalSearch_fromZone {z : Zone} {n0 : LName} {t : Nat} {next : LName} {l : List RRset}
+    (h : additionalSearch z n0 t next = some l) : ∀ x ∈ l, rdatasFromZone z x := by
+  unfold additionalSearch at h
+  dsimp only at h
+  generalize hq : (if (t == T_NS || t == T_MX) = true then [T_A, T_AAAA] else [t]) = qts at h
+  have hf := foldl_addLoop_fromZone (z := z) (F := addFuel z)
+    (names := fun qt => if (qt == t) = true then [n0] else []) (next := next) qts []
+    (by intro y hy; cases hy)
+  generalize (List.foldl (fun adds qt => addLoop z qt (addFuel z) (if (qt == t) = true then [n0] else []) next adds) [] qts) = adds at h hf
+  split at h
+  · cases h
+  · cases h
+    exact hf
+
+/-- … and so does every RRset of the additional section (glue and address records found by
+`additional_search`). -/
+theorem rrsigs_attached_additional {z : Zone} {o : LName} {q : Query} (d n : Bool)
+    (hs : allSigned z = true) : ∀ rr ∈ (respondS z o q d n).additional, signedRR rr := by
+  intro rr hrr
+  apply signed_of_fromZone hs
+  unfold respondS at hrr
+  dsimp only at hrr
+  split at hrr
+  · unfold lookup at hrr
+    cases hla : lookupAnswers z o q.name q.type with
+    | error e => rw [hla] at hrr; simp at hrr
+    | ok p =>
+      obtain ⟨t', a, term⟩ := p
+      rw [hla] at hrr
+      dsimp only at hrr
+      cases hadd : (term.bind (maybeNextName · t')).bind fun n => additionalSearch z q.name t' n with
+      | none => rw [hadd] at hrr; simp at hrr
+      | some l =>
+        rw [hadd] at hrr
+        simp only [Option.getD_some] at hrr
+        obtain ⟨n', _, hn'⟩ := Option.bind_eq_some_iff.1 hadd
+        exact additionalSearch_fromZone hn' rr hrr
+  · cases hrr
+
 end HickoryVerif.C10
